@@ -84,7 +84,7 @@ ProcessMfcbuf(st) ==
                 stA == IF saved = "ENDED" THEN [st EXCEPT !.state = "PROCESSING"] ELSE st
                 r1 == ProcessCep(stA, st.outidx, c1)
                 st1 == [r1.st EXCEPT !.nmfc = @ - r1.used, !.outidx = (@ + r1.used) % st.ma,
-                                     !.state = IF saved = "ENDED" THEN saved ELSE r1.st.state]
+                                     !.state = saved]      \* (restored whatever it was: also STARTED, as in the code)
                 c2 == c - r1.used
                 r2 == ProcessCep(st1, st1.outidx, c2)
             IN [r2.st EXCEPT !.nmfc = @ - r2.used, !.outidx = (@ + r2.used) % st.ma]
@@ -129,8 +129,11 @@ ProcLoop(st, avail, nosearch, first) ==
          IN IF r.took = 0 THEN st1                      \* no progress: the real loop would spin; stop
             ELSE ProcLoop(st1, avail - r.took, nosearch, FALSE)
 
+\* acmod_start_utt puts the read position of the cepstrum ring back to slot 0 (a negative control overrides this with
+\* FALSE: the position then survives from the utterance before)
+OutIdxReset == TRUE
 StartUtt == /\ s.state \in {"IDLE", "ENDED"} /\ s.nutt < MaxUtt
-            /\ s' = [s EXCEPT !.state = "STARTED", !.nmfc = 0, !.outidx = 0, !.feat = <<>>, !.featout = 0, !.nfeat = 0,
+            /\ s' = [s EXCEPT !.state = "STARTED", !.nmfc = 0, !.outidx = IF OutIdxReset THEN 0 ELSE @, !.feat = <<>>, !.featout = 0, !.nfeat = 0,
                               !.next = 0, !.searched = <<>>, !.feended = FALSE, !.nutt = @ + 1]
             /\ hist' = Append(hist, <<"start">>)
 
